@@ -1268,6 +1268,9 @@ func (pf *PathFlow) runFunc(fn *ssa.Function, entry []pfExit, isRoot bool) []pfE
 					if st, ok := in.(*ssa.Store); ok {
 						m.assign(st)
 					}
+					if al, ok := in.(*ssa.Alloc); ok && al.Heap {
+						m.declare(al)
+					}
 					pf.cur = &m
 					for _, g := range pf.Instr(pf, in, false, c.g) {
 						next = append(next, pfState{g: g, d: c.d, m: m})
@@ -1518,6 +1521,41 @@ func (m *pfMem) assign(st *ssa.Store) {
 	}
 	copy(m.cells[0:], m.cells[1:])
 	m.cells[pfCells-1] = pfCell{cell, val}
+}
+
+var c09ZeroConsts = map[types.Type]*ssa.Const{}
+
+// declare: a scalar local variable comes into existence holding its zero value
+// (`var done bool` that a closure may set later).
+func (m *pfMem) declare(al *ssa.Alloc) {
+	t := deref(al.Type())
+	b, ok := t.Underlying().(*types.Basic)
+	if !ok || b.Info()&(types.IsBoolean|types.IsInteger) == 0 {
+		return
+	}
+	z := c09ZeroConsts[t]
+	if z == nil {
+		if b.Info()&types.IsBoolean != 0 {
+			z = ssa.NewConst(constant.MakeBool(false), t)
+		} else {
+			z = ssa.NewConst(constant.MakeInt64(0), t)
+		}
+		c09ZeroConsts[t] = z
+	}
+	for i := range m.cells {
+		if m.cells[i].cell == al {
+			m.cells[i].val = z
+			return
+		}
+	}
+	for i := range m.cells {
+		if m.cells[i].cell == nil {
+			m.cells[i] = pfCell{al, z}
+			return
+		}
+	}
+	copy(m.cells[0:], m.cells[1:])
+	m.cells[pfCells-1] = pfCell{al, z}
 }
 
 func (m *pfMem) cellVal(cell *ssa.Alloc) ssa.Value {
